@@ -251,7 +251,7 @@ def _arbitrary_like(v, name):
     return HavocVal(name)
 def install_loop_rule(interp, ctx_of):
     from .interp import SymRange
-    from .values import BreakExc
+    from .values import BreakExc, ContinueExc
     counters = {}
     def rule(I, node, rng, env, mod):
         target = I.verifying
@@ -296,6 +296,8 @@ def install_loop_rule(interp, ctx_of):
             except BreakExc:
                 frame_check()
                 return                                  # continue after the loop from the break state
+            except ContinueExc:
+                pass                                    # `continue`: this trip ends here; the invariant must hold for the next one like after a complete body
             frame_check()
             q = Q("goal")
             hyps = list(spec.defs(ctx, env, k)) if spec.defs else []
